@@ -407,3 +407,66 @@ def whole_string_equality(prog, rule):
             rule.from_reports(ex.reports, keyfn=lambda k, rep, name=name: '%s:%s' % (name, k))
         else:
             rule.ok('%s:whole-string' % name)
+
+
+# ---------------------------------------------------------------------------
+# WHO: run-time state containers live as long as their owner
+
+import re as _re
+_RELEASE = _re.compile(r'(_unref$|_free$|_clear$|^bus_clear_|_free_all$|_clear_full$|_destroy$)')
+
+STATE_CONTAINERS = {
+    # (record, field): (creating functions, destroying functions)
+    ('BusActivation', 'pending_activations'): ({'bus_activation_new'}, {'bus_activation_unref'}),
+    ('BusRegistry', 'service_hash'): ({'bus_registry_new'}, {'bus_registry_unref'}),
+    ('BusConnections', 'completed_by_user'): ({'bus_connections_new'}, {'bus_connections_unref'}),
+    ('BusConnections', 'pending_replies'): ({'bus_connections_new'}, {'bus_connections_unref'}),
+    ('BusContext', 'registry'): ({'bus_context_new'}, {'bus_context_unref'}),
+    ('BusContext', 'connections'): ({'bus_context_new'}, {'bus_context_unref'}),
+    ('BusContext', 'matchmaker'): ({'bus_context_new'}, {'bus_context_unref'}),
+    ('BusContext', 'activation'): ({'process_config_every_time'}, {'bus_context_unref'}),
+}
+
+
+def state_lifetime(prog, rule, keys):
+    """The run-time state container rec.field is created (assigned a non-NULL value) only by its owner's
+    constructor and released (handed to an *_unref / *_free / *_clear function, or reset to NULL) only by the
+    owner's destructor or on the constructor's own failure path.  A configuration reload, a disconnect or any
+    other operation that replaced the container would silently forget everything it holds."""
+    for rec, field in keys:
+        creators, destroyers = STATE_CONTAINERS[(rec, field)]
+        n = 0
+        for f in prod_funcs(prog):
+            for b, i, ev in f.events():
+                for lhs, how, rhs in written_lvalues(ev):
+                    if not is_member(lhs, field, rec) or how == '&arg':
+                        continue
+                    n += 1
+                    key = '%s.%s<-%s' % (rec, field, f.name)
+                    null = rhs is not None and is_int(rhs, 0)
+                    if (not null and f.name in creators) or (null and f.name in (destroyers | creators)):
+                        rule.ok(key)
+                    else:
+                        rule.violation(key, f.name, f.file, ev['line'],
+                                       '%s.%s is %s in %s; it holds run-time state and may only be created by %s and '
+                                       'dropped by %s: everything it held (pending activations, name owners, '
+                                       'connections, pending replies) is forgotten' % (
+                                           rec, field, 'reset' if null else 'replaced', f.name,
+                                           '/'.join(sorted(creators)), '/'.join(sorted(destroyers))))
+            for b, i, c in f.calls():
+                cal = c.get('callee') or ''
+                if not _RELEASE.search(cal):
+                    continue
+                for a in c['args']:
+                    x = strip_addr(a) or a
+                    if is_member(x, field, rec):
+                        n += 1
+                        key = '%s.%s released-in %s' % (rec, field, f.name)
+                        if f.name in destroyers | creators:
+                            rule.ok(key)
+                        else:
+                            rule.violation(key, f.name, f.file, c['line'],
+                                           '%s.%s is handed to %s in %s: the run-time state it holds is discarded '
+                                           'outside the owner\'s destructor' % (rec, field, cal, f.name))
+        if n == 0:
+            raise AnalysisBroken('state container %s.%s: no creation site found' % (rec, field))
